@@ -137,6 +137,7 @@ const (
 	sBig
 	sBigOpt
 	sMap
+	sSliceLen
 	sField
 	sCell
 )
